@@ -12,6 +12,7 @@ package syncshim
 import (
 	"sync"
 	"sync/atomic"
+	"time"
 )
 
 // Hooks are the scheduling-point callbacks of a controlled scheduler.
@@ -34,17 +35,29 @@ var Epoch atomic.Uint64
 type Mutex struct {
 	mu    sync.Mutex // guards ch and epoch; never held while waiting
 	ch    chan struct{}
-	epoch uint64
-	held  atomic.Bool
-	since atomic.Uint64 // epoch in which the current holder locked
+	epoch   uint64
+	bubbled bool // ch was made inside a bubble
+	held    atomic.Bool
+	since   atomic.Uint64 // epoch in which the current holder locked
 }
+
+// inBubble: inside a synctest bubble the clock starts in the year 2000.
+func inBubble() bool { return time.Now().Year() < 2020 }
 
 func (m *Mutex) channel() chan struct{} {
 	m.mu.Lock()
 	defer m.mu.Unlock()
-	if e := Epoch.Load(); m.ch == nil || m.epoch != e {
+	e := Epoch.Load()
+	switch {
+	case m.ch == nil:
 		m.ch = make(chan struct{}, 1)
-		m.epoch = e
+		m.epoch, m.bubbled = e, inBubble()
+		m.held.Store(false)
+	case m.bubbled && m.epoch != e:
+		// made inside a bubble that is over: only a mutex that outlives bubbles (package level)
+		// gets here - the goroutines of the old bubble are parked for good
+		m.ch = make(chan struct{}, 1)
+		m.epoch, m.bubbled = e, inBubble()
 		m.held.Store(false)
 	}
 	return m.ch
@@ -86,6 +99,8 @@ func (m *Mutex) Unlock() {
 type RWMutex struct {
 	m       sync.Mutex // protects the fields below; never held while waiting
 	epoch   uint64
+	born    bool
+	bubbled bool
 	readers int
 	writer  bool
 	q       []*rwWaiter
@@ -98,8 +113,12 @@ type rwWaiter struct {
 
 // fresh resets a lock that outlived its bubble (rw.m held); see Epoch.
 func (rw *RWMutex) fresh() {
-	if e := Epoch.Load(); rw.epoch != e {
-		rw.epoch, rw.readers, rw.writer, rw.q = e, 0, false, nil
+	e := Epoch.Load()
+	switch {
+	case !rw.born:
+		rw.born, rw.epoch, rw.bubbled = true, e, inBubble()
+	case rw.bubbled && rw.epoch != e:
+		rw.epoch, rw.bubbled, rw.readers, rw.writer, rw.q = e, inBubble(), 0, false, nil
 	}
 }
 
